@@ -347,7 +347,8 @@ def gen_malformed(rng, count):
 # contexts, configurations and histories: Formatter.substitute decides per string, from the parent's name and the
 # formatter's cdata_containing_tags; the registry formatters are shared objects that live for the whole process
 # ---------------------------------------------------------------------------------------------------------------
-PARENTS = ["p", "textarea", "pre", "title", "template", "rt", "rp", "option", "a", "div", "td", "code", "x-custom", "scripts", "styles"]
+PARENTS = ["p", "textarea", "pre", "title", "template", "rt", "rp", "option", "a", "div", "td", "code", "x-custom", "scripts", "styles",
+           "SCRIPT", "Style", "x:script", "svg:style"]  # names are compared exactly: none of these is `script` or `style`
 EXEMPT_CANDIDATES = ["script", "style"]
 CONTEXT_TEXTS = ["a<b", "x>y", "AT&T", "&lt;b&gt; makes text bold", "&amp;", "&copy; 2024", "if (a<b && b>c) go();", "]]> <!-- & -->",
                  "é<ü", "\"q\" & 'r' <", "&#60;", "≧̸<⃒", "p > a { color: red }", "AT&T &amp; &lt;"]
@@ -404,11 +405,22 @@ def run_scenario(steps):
     for i, st in enumerate(steps):
         s, parent, spec = uncps(st["s"]), st["parent"], st["formatter"]
         arg, f, conf, fn, line = _formatter(spec)
-        soup = BeautifulSoup("", "html.parser")
-        tag = soup.new_tag(parent)
-        tag["t"] = s
-        tag.string = s
-        soup.append(tag)
+        tag = None
+        if st.get("parsed"):
+            # the element as the parser builds it: the string then has the builder's class for this container
+            # (Script, Stylesheet, TemplateString, RubyTextString, … — all subclasses of NavigableString)
+            body = s if parent in ("script", "style") else E.substitute_xml(s)
+            doc = BeautifulSoup("<%s t=%s>%s</%s>" % (parent, E.quoted_attribute_value(E.substitute_xml(s)), body, parent), "html.parser")
+            cand = doc.find(parent)
+            if cand is not None and len(cand.contents) == 1 and isinstance(cand.contents[0], NavigableString) \
+                    and str(cand.contents[0]) == s and cand.get("t") == s:
+                tag = cand
+        if tag is None:
+            soup = BeautifulSoup("", "html.parser")
+            tag = soup.new_tag(parent)
+            tag["t"] = s
+            tag.string = s
+            soup.append(tag)
         sub_t = f.substitute(tag.string)
         sub_a = f.attribute_value(s)
         rendered = tag.decode() if spec["kind"] == "default" else tag.decode(formatter=arg)
@@ -442,7 +454,7 @@ def run_scenario(steps):
         if t_back != s:
             bad("element text is read back differently (the parent is not one of the formatter's cdata_containing_tags)",
                 show_text(t_back), tok(s), sub_t, classify_html5_text(sub_t) if fn == 3 else ())
-        elif spec["kind"] in ("name", "default"):
+        elif spec["kind"] in ("name", "default") and parent == parent.lower():
             # and in place: what the parser reads from the rendered element itself
             back = BeautifulSoup(rendered, "html.parser").find(parent)
             txt = None if back is None else "".join(str(c) for c in back.contents if isinstance(c, NavigableString))
@@ -469,6 +481,13 @@ def scenarios(ctx):
         for spec in html_specs + xml_specs:
             for parent in PARENTS + EXEMPT_CANDIDATES:
                 yield "contexts", [dict(parent=parent, s=tok(s), formatter=spec)]
+    # the same with elements built by the parser (string classes of the builder: TemplateString, RubyTextString, Script, …)
+    for s in texts[:12]:
+        if "</" in s or "\r" in s or "\x00" in s:
+            continue
+        for spec in html_specs[:3] + xml_specs[:1]:
+            for parent in ("p", "template", "rt", "rp", "textarea", "pre", "title", "script", "style"):
+                yield "contexts-parsed", [dict(parent=parent, s=tok(s), formatter=spec, parsed=True)]
     # custom configurations
     cds = [(None, "set"), ([], "set"), ([], "frozenset"), ([], "list"), ([], "tuple"), (["script"], "set"), (["x-custom"], "set"),
            (["pre", "script", "style"], "list")]
